@@ -291,7 +291,10 @@ func (c *VirtualTable) BestIndex(input []IndexInput, order []OrderInput) (*Index
 			out.AlreadyOrdered = false
 		}
 		if desc != nil {
-			return nil, errors.New("order specified multiple times")
+			// only the first ORDER BY term can be served by the key-ordered
+			// scan; with further terms SQLite does the sorting itself
+			out.AlreadyOrdered = false
+			continue
 		}
 		v := order[i].Desc
 		desc = &v
